@@ -3,6 +3,7 @@
 package main
 
 import (
+	"bytes"
 	"fmt"
 	"strings"
 
@@ -234,6 +235,25 @@ func oracleC17() *Result {
 			}
 			add(s.Src, variant, v, "g-cfg")
 		}
+	}
+	// several constructs in one file (formatter state that outlives a statement)
+	nc := 200
+	if opts.Tier == "thorough" {
+		nc = 3000
+	}
+	for _, b := range docCombos(rng, nc) {
+		add(b, nil, "7.4", "doc-combo")
+	}
+	var pool [][]byte
+	for _, t := range tasks {
+		if t.Cfg == "7.4" {
+			if i := bytes.IndexByte(t.Src, 0); i > 0 {
+				pool = append(pool, t.Src[:i])
+			}
+		}
+	}
+	for _, b := range combineSources(rng, pool, nc) {
+		add(b, nil, "7.4", "combined")
 	}
 	runOracle(r, tasks)
 	return r
